@@ -10,6 +10,11 @@ Legs
   I  inputs           gate open, no fault: utterances x snippet lists x summary_tokens x ops cap x backend menu
   F  faults           gate open: fault plan x reflect kind (real / scripted k entries) x cap x index kind
   P  purity           groups of cases that agree on (agent, turn, slot, text) and differ in everything else
+  H  histories        sequences of planner answers on ONE state; each turn = real LLM planner facade (run_policy with the
+                      real fixture adapter / validator, which is what produces the stashed request) + run_turn; the gate
+                      of turn i must follow turn i's plan, whatever earlier turns requested
+  E  environment      every turn execution runs under a scripted process time zone (part of the clock profile); the
+                      id/ts table is recomputed in fresh interpreters with other hash seeds and other time zones
   D1 reflect()        direct calls over a larger utterance / snippet-list alphabet (summary clamp, ops cap)
   D2 writer           direct calls of write_reflection_entries: k entries x cap x every subset of failing add calls
 
@@ -64,7 +69,7 @@ for _m, _names in ((refl_mod, ("reflect", "_EMBED_ADAPTER", "FixtureLLMAdapter",
                    (writer_mod, ("write_reflection_entries",)),
                    (orch_logging, ("_append_jsonl_default", "log_t3_reflection", "IOL")),
                    (IOL, ("normalize_for_identity",)),
-                   (t3_pkg, ("deliberate",))):
+                   (t3_pkg, ("deliberate", "run_policy", "select_policy", "make_planner_prompt"))):
     for _n in _names:
         if not hasattr(_m, _n):
             raise HarnessError("seam missing: %s.%s" % (_m.__name__, _n))
@@ -124,8 +129,43 @@ COMPLETIONS = ["alpha beta gamma delta epsilon", "  spaced \n out\ttext  here ",
                "uni ünï 世界 ok", ""]
 STUB_TEXTS = ["e0 alpha", "e1 beta gamma", "e2 ünï", "e3", "e4 delta", "e5 eps", "e6 zeta"]
 
-PROFILES = {"P0": (1000.0, 0.0, 1.0e9), "P1": (123456.0, 0.00025, 1.9e9)}
+# environment profile = (perf_counter start, perf step per call, wall clock, process time zone).  The zone is an
+# ENVIRONMENT ANSWER like the clocks: the same turn must write the same entry whatever zone the host is in.  POSIX TZ
+# strings (no tzdata needed): UTC, a zone east of UTC without DST; the probe children add a western zone with DST and
+# a 45-minute offset.  "P1z0" (P1's clocks in P0's zone) is only executed to classify a P0/P1 difference;
+# "PE" keeps the zone the interpreter was started with (used by the fresh-interpreter probe).
+PROFILES = {"P0": (1000.0, 0.0, 1.0e9, "UTC0"), "P1": (123456.0, 0.00025, 1.9e9, "JST-9"),
+            "P1z0": (123456.0, 0.00025, 1.9e9, "UTC0"), "PE": (1000.0, 0.0, 1.0e9, None)}
 PROFS = ["P0", "P1"]
+PROBE_ZONES = ["EST5EDT,M3.2.0,M11.1.0", "NPT-5:45"]
+
+
+class Zone:
+    """Sets the process time zone (TZ + tzset) for one execution and restores the previous one."""
+
+    def __init__(self, tz: Optional[str]):
+        self.tz = tz
+        self.old: Any = None
+
+    def __enter__(self):
+        if self.tz is None:
+            return self
+        if not hasattr(_real_time, "tzset"):
+            raise HarnessError("time.tzset unavailable: cannot script the process time zone")
+        self.old = os.environ.get("TZ", _MISSING)
+        os.environ["TZ"] = self.tz
+        _real_time.tzset()
+        return self
+
+    def __exit__(self, *a):
+        if self.tz is None:
+            return False
+        if self.old is _MISSING:
+            os.environ.pop("TZ", None)
+        else:
+            os.environ["TZ"] = self.old
+        _real_time.tzset()
+        return False
 
 DEFAULT_CASE = dict(kind="turn", world="W0", agent="A", turn=1, text="apple", utter="hi", snips="one",
                     allow=True, flag="plan", dry=False, t4=True, tokens=8, cap=2, topk=3, embed=True,
@@ -148,7 +188,7 @@ class FakeClock:
     """Stands in for the `time` module inside orchestrator.core (perf_counter/time/sleep scripted)."""
 
     def __init__(self, prof: str):
-        self.t, self.step, self.wall = PROFILES[prof]
+        self.t, self.step, self.wall = PROFILES[prof][:3]
         self.calls = 0
 
     def perf_counter(self):
@@ -334,6 +374,13 @@ def is_open(c: dict) -> bool:
 
 # ----------------------------------------------------------------------------- one execution
 def execute(case: dict, prof: str, env: Env) -> dict:
+    with Zone(PROFILES[prof][3]):
+        if norm(case).get("kind") == "history":
+            return _execute_history(case, prof, env)
+        return _execute_turn(case, prof, env)
+
+
+def _execute_turn(case: dict, prof: str, env: Env) -> dict:
     c = norm(case)
     W.reset_globals()
     ex = W.Exec(env.scratch, "t")
@@ -544,6 +591,20 @@ def reference_of(c: dict) -> dict:
     return r
 
 
+def _classify_profile_difference(c: dict, obs: Dict[str, dict], env: Env, st: Optional[Stats]) -> Tuple[str, str]:
+    """P0 and P1 differ in the clocks AND in the process time zone: one more execution with P1's clocks in P0's zone
+    tells which environment answer the written entries depend on."""
+    h = execute(c, "P1z0", env)
+    if st is not None:
+        st.add("transitions")
+        st.add("aux_executions")
+    if h["ok"] and h["new"] == obs["P0"]["new"]:
+        return ("purity:time-zone", "new memory entries depend on the process time zone (TZ=%s vs TZ=%s, same clocks): %s vs %s" % (
+            PROFILES["P0"][3], PROFILES["P1"][3], _short(repr(obs["P0"]["new"]), 220), _short(repr(obs["P1"]["new"]), 220)))
+    return ("purity:clock-profile", "new memory entries differ between clock profiles: %s vs %s" % (
+        _short(repr(obs["P0"]["new"]), 220), _short(repr(obs["P1"]["new"]), 220)))
+
+
 def check_turn_case(case: dict, env: Env, cache: Dict[str, dict], st: Optional[Stats] = None):
     """Returns (violations[(sig, what)], outcome_class)."""
     c = norm(case)
@@ -648,10 +709,10 @@ def check_turn_case(case: dict, env: Env, cache: Dict[str, dict], st: Optional[S
                 if o["new"] != r["new"]:
                     out.append(("purity:elapsed-time", tag + "memory depends on elapsed time below the budget (delay %sms): %s vs %s" % (
                         c["delay"], _short(repr(o["new"]), 200), _short(repr(r["new"]), 200))))
-    # ---- purity across clock profiles (and real time: the two executions happen at different wall times)
+    # ---- purity across environment profiles (clocks, process time zone, and real time: the executions happen at
+    #      different wall times)
     if all(obs[p]["ok"] for p in PROFS) and obs["P0"]["new"] != obs["P1"]["new"]:
-        out.append(("purity:clock-profile", "new memory entries differ between clock profiles: %s vs %s" % (
-            _short(repr(obs["P0"]["new"]), 220), _short(repr(obs["P1"]["new"]), 220))))
+        out.append(_classify_profile_difference(c, obs, env, st))
     # ---- (id, ts) as a function of (agent, turn, slot, text): table shared by every case this process executes
     if open_ and "write" not in legs and "embed" not in legs:
         for prof in PROFS:
@@ -857,6 +918,282 @@ def _turn_worker(chunk, st: Stats, scratch_root: str):
                 if len(st.samples) < 2 and open_ and o0["new"]:
                     st.sample({"case": case, "new_entries": [json.loads(_sans_vec(x)) for x in o0["new"]],
                                "t3_reflection": o0["refl"]})
+    finally:
+        env.close()
+
+
+# ----------------------------------------------------------------------------- H: turn histories on ONE state, real planner facade
+# One letter = what the planner says in that turn.  The request reaches the gate the way the engine produces it: the
+# real LLM planner facade `run_policy` (real FixtureLLMAdapter over a real fixture file, real output validation) runs
+# before `run_turn` on the same state object, in every turn.  (completion text | None = no fixture entry | "<nofile>",
+# does this turn's plan request reflection, Plan.reflection scripted on, dry-run ctx)
+_OKPLAN = '"plan":["note it"],"rationale":"because"'
+PLANNER_ANSWERS: Dict[str, Tuple[Optional[str], bool, bool, bool]] = {
+    "T": ('{%s,"reflection":true}' % _OKPLAN, True, False, False),
+    "Ts": ('{%s,"reflection":"yes"}' % _OKPLAN, True, False, False),       # documented: boolean-like strings are coerced
+    "F": ('{%s,"reflection":false}' % _OKPLAN, False, False, False),
+    "N": ('{%s}' % _OKPLAN, False, False, False),                           # valid output without the optional key
+    "badjson": ("Sure! I would reflect: true", False, False, False),         # rejected output -> fallback plan
+    "unk": ('{%s,"reflection":true,"confidence":1}' % _OKPLAN, False, False, False),  # unknown key -> rejected -> fallback plan
+    "nofx": (None, False, False, False),                                     # no fixture for this prompt -> adapter error -> fallback plan
+    "nofile": ("<nofile>", False, False, False),                             # fixture file gone -> adapter cannot be built -> fallback plan
+    "Pl": ('{%s,"reflection":false}' % _OKPLAN, True, True, False),         # request carried by Plan.reflection instead
+    "Td": ('{%s,"reflection":true}' % _OKPLAN, True, False, True),          # requested, but the turn is a dry run
+}
+HIST_LETTERS_QUICK = ["T", "F", "N", "badjson", "nofx", "nofile"]
+HIST_LETTERS_ALL = list(PLANNER_ANSWERS)
+
+
+def _letter_class(letter: str) -> str:
+    if letter in ("F", "N"):
+        return "planner-declined"
+    if letter in ("badjson", "unk", "nofx", "nofile"):
+        return "planner-fallback"
+    if letter == "Td":
+        return "dry-run"
+    return "requested"
+
+
+def _execute_history(case: dict, prof: str, env: Env) -> dict:
+    from clematis.adapters import llm as llm_mod
+    if not hasattr(llm_mod, "_prompt_hash"):
+        raise HarnessError("seam missing: clematis.adapters.llm._prompt_hash")
+    c = norm(case)
+    W.reset_globals()
+    ex = W.Exec(env.scratch, "h")
+    ex.activate()
+    P = Patches()
+    clock = FakeClock(prof)
+    rec = {"calls": 0}
+    plan_on = {"v": False}
+    turns: List[dict] = []
+    try:
+        fx = os.path.join(ex.root, "planner-fixtures.jsonl")
+        with open(fx, "w", encoding="utf-8"):
+            pass
+        over = {"t3": {"backend": "llm", "allow_reflection": bool(c["allow"]),
+                       "llm": {"provider": "fixture", "fixtures": {"enabled": True, "path": fx}},
+                       "reflection": {"backend": "rulebased", "summary_tokens": c["tokens"], "topk_snippets": c["topk"],
+                                      "embed": c["embed"]}},
+                "t4": {"enabled": bool(c["t4"])},
+                "scheduler": {"budgets": {"ops_reflection": c["cap"]}}}
+        cfg = W.make_cfg(over, snap_dir=ex.snap_dir)
+        raw = W.make_world(c["world"])
+        state = W.AttrDict(raw) if c["shape"] == "attr" else raw
+        t2idx = state["mem_index"]
+        midx = InMemoryIndex()
+        state["memory_index"] = midx
+
+        P.set(orch_core, "time", clock)
+        _u = UTTERS[c["utter"]]
+        if _u is None:
+            raise HarnessError("history cases need a scripted utterance (the llm dialogue backend is not the subject)")
+        P.set(orch_pkg, "t3_dialogue", lambda dialog_bundle, plan: _u)
+
+        def delib(_ctx, _state, bundle):
+            p = REAL_DELIBERATE(bundle)
+            return dataclasses.replace(p, reflection=True) if plan_on["v"] else p
+        P.set(orch_pkg, "t3_deliberate", delib)
+
+        def reflect_wrapper(bundle, cfg_root, embedder=None):
+            rec["calls"] += 1
+            return REAL_REFLECT(bundle, cfg_root, embedder=embedder)
+        P.set(refl_mod, "reflect", reflect_wrapper)
+
+        def refl_lines() -> List[Any]:
+            p = os.path.join(ex.log_dir, REFL_LOG)
+            if not os.path.exists(p):
+                return []
+            with open(p, "r", encoding="utf-8", errors="replace") as f:
+                return [ln for ln in f.read().splitlines() if ln.strip()]
+
+        for i, letter in enumerate(c["hist"], start=1):
+            completion, _req, plan_flag, dry = PLANNER_ANSWERS[letter]
+            ctx = W.make_ctx(cfg, c["agent"], i)
+            if dry:
+                ctx._dry_run_until_t4 = True
+            if completion == "<nofile>":
+                if os.path.exists(fx):
+                    os.unlink(fx)
+            else:
+                with open(fx, "w", encoding="utf-8") as f:
+                    f.write(json.dumps({"prompt_hash": "0" * 64, "completion": "unrelated entry"}) + "\n")
+                    if completion is not None:
+                        f.write(json.dumps({"prompt_hash": llm_mod._prompt_hash(t3_pkg.make_planner_prompt(ctx)),
+                                            "completion": completion}) + "\n")
+            plan_on["v"] = bool(plan_flag)
+            b_m, b_t2, calls0, lines0 = _idx_eps(midx), _idx_eps(t2idx), rec["calls"], len(refl_lines())
+            t: Dict[str, Any] = {"letter": letter, "planner": None, "planner_raised": None, "ok": True, "err": None}
+            try:
+                with contextlib.redirect_stderr(io.StringIO()):
+                    pol = t3_pkg.run_policy(t3_pkg.select_policy(cfg, ctx), {}, cfg, ctx, state=state)
+                t["planner"] = [list(pol.get("plan") or []), str(pol.get("rationale", ""))[:40]] if isinstance(pol, dict) else repr(pol)[:60]
+            except HarnessError:
+                raise
+            except Exception as e:   # the facade itself is not the subject of C19: the history ends here
+                t["planner_raised"] = "%s: %s" % (type(e).__name__, e)
+                turns.append(t)
+                break
+            try:
+                with contextlib.redirect_stderr(io.StringIO()):
+                    res = orch_core.run_turn(ctx, state, c["text"])
+                if not isinstance(getattr(res, "line", None), str):
+                    t["ok"], t["err"] = False, "run_turn returned %r" % (res,)
+            except HarnessError:
+                raise
+            except Exception as e:
+                t["ok"], t["err"] = False, "%s: %s" % (type(e).__name__, e)
+            a_m, a_t2 = _idx_eps(midx), _idx_eps(t2idx)
+            t["prefix_ok"] = a_m[:len(b_m)] == b_m and a_t2[:len(b_t2)] == b_t2
+            t["new"] = a_m[len(b_m):] + a_t2[len(b_t2):]
+            t["calls"] = rec["calls"] - calls0
+            t["refl"] = refl_lines()[lines0:]
+            turns.append(t)
+            if not t["ok"]:
+                break
+        return {"ok": all(t["ok"] for t in turns), "turns": turns,
+                "new": [x for t in turns for x in t.get("new", [])]}
+    finally:
+        P.close()
+        ex.close()
+
+
+def check_history_case(case: dict, env: Env, st: Optional[Stats] = None):
+    """Oracle per turn of the history: the gate of turn i depends on turn i's plan only."""
+    c = norm(case)
+    out: List[Tuple[str, str]] = []
+    obs: Dict[str, dict] = {}
+    cap = c["cap"] if c["cap"] is not None else DEFAULT_CAP
+    for prof in PROFS:
+        o = execute(c, prof, env)
+        obs[prof] = o
+        tag = "[%s] " % prof
+        for i, t in enumerate(o["turns"], start=1):
+            if t["planner_raised"]:
+                continue
+            if st is not None:
+                st.add("transitions")
+            letter = t["letter"]
+            _completion, req, _pf, dry = PLANNER_ANSWERS[letter]
+            open_ = bool(c["allow"]) and req and not dry
+            where = "turn %d of planner history %s (state shape %s)" % (i, "/".join(c["hist"]), c["shape"])
+            if not t["ok"]:
+                out.append(("turn-crashed:history", tag + "run_turn did not complete in %s: %s" % (where, t["err"])))
+                continue
+            if not open_:
+                cl = "allow=0" if not c["allow"] else _letter_class(letter)
+                why = "this turn's plan does not request reflection (planner said %r)" % (t["planner"],) \
+                    if cl.startswith("planner") else cl
+                if t["calls"]:
+                    out.append(("history:gate-closed:reflect-called:" + cl, tag + "reflect() ran in %s although %s" % (where, why)))
+                if t["new"] or not t["prefix_ok"]:
+                    out.append(("history:gate-closed:memory-written:" + cl, tag + "memory written in %s although %s: %s" % (
+                        where, why, _short(repr(t["new"]), 200))))
+                if t["refl"]:
+                    out.append(("history:gate-closed:telemetry-logged:" + cl, tag + "%s line written in %s although %s: %s" % (
+                        REFL_LOG, where, why, _short(repr(t["refl"]), 200))))
+                continue
+            if not t["prefix_ok"]:
+                out.append(("memory:existing-entries-altered", tag + "entries present before %s were changed or removed" % where))
+            if len(t["new"]) > cap:
+                out.append(("cap:exceeded:history", tag + "%d new memory entries in %s with ops_reflection=%s" % (len(t["new"]), where, c["cap"])))
+            for ej in t["new"]:
+                ntok = len(str(json.loads(ej).get("text", "")).split())
+                if ntok > c["tokens"]:
+                    out.append(("summary:over-limit:history", tag + "stored summary has %d whitespace tokens, limit %d (%s)" % (
+                        ntok, c["tokens"], where)))
+    ok_all = all(obs[p]["ok"] and not any(t["planner_raised"] for t in obs[p]["turns"]) for p in PROFS)
+    if ok_all and obs["P0"]["new"] != obs["P1"]["new"]:
+        out.append(_classify_profile_difference(c, obs, env, st))
+    if ok_all:
+        for prof in PROFS:
+            for i, t in enumerate(obs[prof]["turns"], start=1):
+                for slot, ej in enumerate(t["new"]):
+                    e = json.loads(ej)
+                    k = jkey([c["agent"], i, slot, e.get("text")])
+                    v = (str(e.get("id")), str(e.get("ts")))
+                    old = env.fd.get(k)
+                    if old is None:
+                        env.fd[k] = (v[0], v[1], c, prof)
+                        if st is not None:
+                            st.distinct("fd_keys", k)
+                            st.distinct("fd_pairs", [k, v[0], v[1]])
+                    elif (old[0], old[1]) != v:
+                        which = "id" if old[0] != v[0] else "ts"
+                        sig = "purity:%s-not-a-function-of-agent-turn-slot-text" % which
+                        what = "(agent,turn,slot,text)=%s -> %r vs %r" % (_short(k, 120), v, (old[0], old[1]))
+                        if st is not None:
+                            st.violation(sig, what, {"kind": "pair", "a": old[2], "pa": old[3], "b": c, "pb": prof})
+                        else:
+                            out.append((sig, what))
+    o0 = obs["P0"]
+    outcome = ["history", c["shape"], bool(c["allow"]),
+               [[_letter_class(t["letter"]), bool(t.get("calls")), min(len(t.get("new", [])), 2), bool(t.get("refl")),
+                 bool(t["planner_raised"]), t["ok"]] for t in o0["turns"]]]
+    return out, outcome, obs
+
+
+def enumerate_histories(thorough: bool) -> List[dict]:
+    cases: List[dict] = []
+
+    def add(hist, shape, allow=True):
+        cases.append(dict(kind="history", leg="H", hist=list(hist), shape=shape, allow=allow, world="W0", utter="hi",
+                          tokens=8, cap=2, embed=False))
+    if thorough:
+        for h in itertools.product(HIST_LETTERS_ALL, repeat=2):
+            add(h, "attr")
+            add(h, "dict")
+            add(h, "attr", allow=False)
+        for h in itertools.product(HIST_LETTERS_ALL, repeat=3):
+            add(h, "attr")
+    else:
+        for h in itertools.product(HIST_LETTERS_QUICK, repeat=2):
+            add(h, "attr")
+            add(h, "dict")
+        for h in itertools.product(("T", "F"), repeat=2):
+            add(h, "attr", allow=False)
+        # three turns: every position of ONE request among declines / fallbacks, and request-fallback-decline orders
+        for h in itertools.permutations(("T", "N", "nofx"), 3):
+            add(h, "attr")
+        for h in (("T", "badjson", "badjson"), ("T", "nofile", "T"), ("Pl", "F", "nofx"), ("Td", "nofx", "F"), ("Ts", "unk", "F")):
+            add(h, "attr")
+    return cases
+
+
+def _history_worker(chunk, st: Stats, scratch_root: str):
+    env = Env(scratch_root)
+    try:
+        for case in chunk:
+            c = norm(case)
+            res, outcome, obs = check_history_case(case, env, st)
+            st.add("validated")
+            st.add("history_cases")
+            st.distinct("states", jkey(c))
+            st.distinct("outcomes", outcome)
+            seen_req = False
+            stale_risk = False
+            for t in obs["P0"]["turns"]:
+                if t["planner_raised"]:
+                    st.add("n_hist_planner_facade_raised")      # observed, not judged (not the subject of C19)
+                    break
+                _comp, req, _pf, dry = PLANNER_ANSWERS[t["letter"]]
+                st.add("n_hist_turns")
+                if t.get("calls"):
+                    st.add("n_hist_turns_reflected")
+                if seen_req and not (req and not dry):
+                    stale_risk = True
+                    if c["allow"] and c["shape"] == "attr" and not t.get("calls"):
+                        st.add("n_hist_closed_after_a_reflecting_turn")
+                if req and not dry and t.get("calls"):
+                    seen_req = True
+            if stale_risk:
+                st.add("nontrivial")
+            for sig, what in res:
+                st.violation(sig, what, case)
+            if len(st.samples) < 1 and stale_risk:
+                st.sample({"case": case, "turns": [{k: t.get(k) for k in ("letter", "planner", "calls", "refl")} |
+                                                   {"new": [json.loads(_sans_vec(x)) for x in t.get("new", [])]}
+                                                   for t in obs["P0"]["turns"]]})
     finally:
         env.close()
 
@@ -1116,52 +1453,61 @@ def _probe_cases() -> List[dict]:
     cases = [cs for g in legs["P"] for cs in g]
     cases.append(dict(leg="P", backend="llm:present:3", utter="uni", snips="mixed", tokens=128, cap=1))
     cases.append(dict(leg="P", world="W1", utter="real", tokens=128, cap=5, memidx="alias"))
+    # later turns of one state (turn ids 2 and 3), request produced by the real planner facade
+    cases.append(dict(kind="history", leg="H", hist=["T", "T", "Ts"], shape="attr", world="W0", utter="hi", tokens=8, cap=2, embed=False))
     return cases
 
 
 def _fd_table(scratch_root: str) -> Dict[str, list]:
+    """(agent,turn,slot,text) -> [id, ts, entry] of the probe cases, under THIS interpreter's string-hash seed and the
+    time zone it was started in (profile PE does not touch the zone)."""
     env = Env(scratch_root)
     try:
         table: Dict[str, list] = {}
         for cs in _probe_cases():
             c = norm(cs)
-            o = execute(c, "P0", env)
-            for slot, ej in enumerate(o["new"]):
-                e = json.loads(ej)
-                table.setdefault(jkey([c["agent"], c["turn"], slot, e.get("text")]), [e.get("id"), e.get("ts"), ej])
+            o = execute(c, "PE", env)
+            per_turn = [(i, t.get("new", [])) for i, t in enumerate(o["turns"], start=1)] if c["kind"] == "history" \
+                else [(c["turn"], o["new"])]
+            for turn, new in per_turn:
+                for slot, ej in enumerate(new):
+                    e = json.loads(ej)
+                    table.setdefault(jkey([c["agent"], turn, slot, e.get("text")]), [e.get("id"), e.get("ts"), ej])
         return table
     finally:
         env.close()
 
 
-def check_hash_seeds(scratch_root: str, seeds: List[str]) -> Tuple[List[Tuple[str, str]], int]:
-    """Re-computes the (agent,turn,slot,text) -> (id, ts, entry) table in fresh interpreters with other string-hash
-    seeds and compares it with this process's table."""
+def check_hash_seeds(scratch_root: str, seeds: List[str], zones: Optional[List[str]] = None) -> Tuple[List[Tuple[str, str]], int]:
+    """Re-computes the (agent,turn,slot,text) -> (id, ts, entry) table in fresh interpreters that differ from this one
+    in ONE environment answer - the string-hash seed, or the time zone the interpreter is started in - and compares
+    it with this process's table."""
     import subprocess
     mine = _fd_table(scratch_root)
     if not mine:
         raise HarnessError("hash-seed probe wrote no entries")
     procs = []
-    for sd in seeds:
+    for dim, val in [("PYTHONHASHSEED", sd) for sd in seeds] + [("TZ", z) for z in (zones or [])]:
         envv = dict(os.environ)
-        envv["PYTHONHASHSEED"] = sd
+        envv[dim] = val
         envv["C19_PROBE_SCRATCH"] = scratch_root
-        procs.append((sd, subprocess.Popen([sys.executable, "-m", "props.c19_reflection"], env=envv, cwd=os.path.dirname(os.path.dirname(os.path.abspath(__file__))),
-                                           stdout=subprocess.PIPE, stderr=subprocess.PIPE)))
+        procs.append((dim, val, subprocess.Popen([sys.executable, "-m", "props.c19_reflection"], env=envv, cwd=os.path.dirname(os.path.dirname(os.path.abspath(__file__))),
+                                                 stdout=subprocess.PIPE, stderr=subprocess.PIPE)))
     out: List[Tuple[str, str]] = []
-    for sd, pr in procs:
+    for dim, val, pr in procs:
         so, se = pr.communicate()
         if pr.returncode != 0:
-            raise HarnessError("hash-seed probe (seed %s) failed: %s" % (sd, se.decode("utf-8", "replace")[-400:]))
+            raise HarnessError("environment probe (%s=%s) failed: %s" % (dim, val, se.decode("utf-8", "replace")[-400:]))
         theirs = json.loads(so.decode("utf-8").strip().splitlines()[-1])
+        sig = "purity:hash-seed" if dim == "PYTHONHASHSEED" else "purity:time-zone"
         if set(theirs) != set(mine):
-            out.append(("purity:hash-seed", "set of written (agent,turn,slot,text) keys differs under PYTHONHASHSEED=%s" % sd))
+            out.append((sig, "set of written (agent,turn,slot,text) keys differs under %s=%s" % (dim, val)))
             continue
         for k in sorted(mine):
             if mine[k] != theirs[k]:
                 which = "id" if mine[k][0] != theirs[k][0] else ("ts" if mine[k][1] != theirs[k][1] else "entry")
-                out.append(("purity:hash-seed", "%s of %s differs under PYTHONHASHSEED=%s: %r vs %r" % (
-                    which, _short(k, 100), sd, mine[k][:2], theirs[k][:2])))
+                out.append((sig, "%s of %s differs in an interpreter started with %s=%s: %r vs %r here (%s=%s)" % (
+                    which, _short(k, 100), dim, val, theirs[k][:2], mine[k][:2], dim, os.environ.get(dim, "<unset>"))))
                 break
     return out, len(mine)
 
@@ -1181,14 +1527,27 @@ def run(run: Run) -> None:
     if not run.n.get("n_cases_with_entries_written") or not run.n.get("n_fault_cases_fired"):
         raise HarnessError("vacuous: no open-gate execution wrote a memory entry / no injected fault fired "
                            "(reflect seam or memory_index key moved?)")
-    hs, nkeys = check_hash_seeds(run.scratch, HASH_SEEDS)
-    run.add("transitions", (len(HASH_SEEDS) + 1) * len(_probe_cases()))
-    run.add("validated", len(HASH_SEEDS))
+    # ---- H: histories of planner answers on one state
+    hcases = enumerate_histories(run.thorough)
+    run.notes["cases_leg_H"] = len(hcases)
+    run.notes["history_planner_alphabet"] = HIST_LETTERS_ALL if run.thorough else HIST_LETTERS_QUICK + ["(+ Ts unk Pl Td in 5 three-turn histories)"]
+    hcases.sort(key=lambda cs: -len(cs["hist"]))
+    run.pmap(_history_worker, hcases, extra=(run.scratch,))
+    if not run.n.get("n_hist_turns_reflected") or not run.n.get("n_hist_closed_after_a_reflecting_turn"):
+        raise HarnessError("vacuous: no history turn reflected on a planner request / no non-requesting turn followed a "
+                           "reflecting one (planner facade, fixture format or state stash moved?)")
+    zones = PROBE_ZONES if run.thorough else PROBE_ZONES[:1]
+    hs, nkeys = check_hash_seeds(run.scratch, HASH_SEEDS, zones)
+    nprobe = sum(len(cs["hist"]) if cs.get("kind") == "history" else 1 for cs in _probe_cases())
+    run.add("transitions", (len(HASH_SEEDS) + len(zones) + 1) * nprobe)
+    run.add("validated", len(HASH_SEEDS) + len(zones))
     run.notes["hash_seeds_compared"] = [os.environ.get("PYTHONHASHSEED", "?")] + HASH_SEEDS
+    run.notes["time_zones_compared"] = {"in_process_per_profile": {p: PROFILES[p][3] for p in PROFS},
+                                        "fresh_interpreters": [os.environ.get("TZ", "<host default>")] + zones}
     run.notes["hash_seed_probe_keys"] = nkeys
     run.distinct("outcomes", ["hash-seed", bool(hs)])
     for sig, what in hs:
-        run.violation(sig, what, {"kind": "hashseed", "seeds": HASH_SEEDS})
+        run.violation(sig, what, {"kind": "hashseed", "seeds": HASH_SEEDS, "zones": zones})
     d1 = enumerate_reflect_direct(run.thorough)
     run.notes["cases_reflect_direct"] = len(d1)
     run.pmap(_reflect_worker, d1, extra=(run.scratch,))
@@ -1213,12 +1572,27 @@ def run(run: Run) -> None:
     _writer_worker(d2, run)
     run.notes["fd_keys_distinct"] = len(run.sets.get("fd_keys", ()))
     run.notes["fd_key_value_pairs_distinct"] = len(run.sets.get("fd_pairs", ()))
-    run.notes["clock_profiles"] = {k: {"perf_start": v[0], "perf_step_per_call": v[1], "wall": v[2]} for k, v in PROFILES.items()}
+    run.notes["clock_profiles"] = {k: {"perf_start": PROFILES[k][0], "perf_step_per_call": PROFILES[k][1], "wall": PROFILES[k][2],
+                                       "process_time_zone": PROFILES[k][3]} for k in PROFS}
     run.notes["exception_alphabet"] = EXC_ALL if run.thorough else EXC_QUICK
     run.rule = ("every case of legs G (gate matrix), I (inputs), F (fault plans), P (purity groups) is one real run_turn per "
-                "clock profile plus the reflection-off baseline and, for fault cases, the fault-free reference; D1/D2 call "
-                "reflect()/write_reflection_entries directly. non-trivial = open gate and reflect() actually ran, or closed gate "
-                "with at least one gate input set; D1: limit < 128 or cap 0; D2: more entries than cap or a failing add")
+                "environment profile (clock script + process time zone: P0 = UTC, P1 = UTC+9) plus the reflection-off baseline "
+                "and, for fault cases, the fault-free reference; leg H runs every history (length 2, thorough: <= 3) of "
+                "planner answers {requests reflection, declines, omits the key, rejected output, no fixture, fixture file "
+                "gone; thorough also boolean-like string, unknown key, Plan.reflection, dry run} on ONE state: in each turn "
+                "the real LLM planner facade run_policy (real fixture adapter and validator) and then run_turn, the gate of "
+                "turn i judged against turn i's plan only; the id/ts table is recomputed in fresh interpreters with other "
+                "hash seeds and other time zones; D1/D2 call reflect()/write_reflection_entries directly. non-trivial = "
+                "open gate and reflect() actually ran, or closed gate with at least one gate input set; H: a turn that does "
+                "not request reflection follows one that reflected; D1: limit < 128 or cap 0; D2: more entries than cap "
+                "or a failing add")
+    run.assume("leg H: the planner facade runs in every turn before run_turn on the same state object (what a driver of the "
+               "LLM planner does); histories where a driver stops calling the planner are not in the space - the statement "
+               "does not say who clears a request then. 'requested by the plan' for a turn whose planner output is rejected "
+               "or unavailable = the documented fallback plan, which requests nothing. That reflection DOES run on a "
+               "request is counted (anti-vacuity), not demanded ('only when')")
+    run.assume("time zones are POSIX TZ strings set through TZ + time.tzset() (in-process) or the child's environment; "
+               "ctx carries the integer logical clock now_ms and no pre-computed now_iso, so the engine derives the stamp itself")
     run.assume("the logical clock is a function of the turn (ctx.now_ms = base + 1000*turn, ctx.now fixed), so 'ts is a function of "
                "(agent, turn, slot, text)' is checked with the logical clock folded into the turn")
     run.assume("the reflection memory index is state['memory_index'] (what write_reflection_entries selects); T2 reads "
@@ -1239,7 +1613,9 @@ def replay(case):
     try:
         kind = case.get("kind", "turn")
         if kind == "hashseed":
-            return sorted(set(check_hash_seeds(base, list(case.get("seeds") or HASH_SEEDS))[0]))
+            return sorted(set(check_hash_seeds(base, list(case.get("seeds") or HASH_SEEDS), list(case.get("zones") or []))[0]))
+        if kind == "history":
+            return sorted(set(check_history_case(case, env, None)[0]))
         if kind == "reflect":
             return sorted(set(check_reflect_direct(case, env)[0]))
         if kind == "fixture-history":
@@ -1249,7 +1625,10 @@ def replay(case):
         if kind == "pair":
             out = []
             for cc in (case["a"], case["b"]):
-                res, _oc, _obs = check_turn_case(cc, env, {}, None)
+                if cc.get("kind") == "history":
+                    res, _oc, _obs = check_history_case(cc, env, None)
+                else:
+                    res, _oc, _obs = check_turn_case(cc, env, {}, None)
                 out.extend(res)
             return sorted(set(out))
         res, _oc, _obs = check_turn_case(case, env, {}, None)
